@@ -252,6 +252,35 @@ PROPS = {
             "no loss / duplication / reordering of lines across rotation; behaviour across restarts",
         ],
     },
+    "C03": {
+        "title": "Message framing comes only from the headers",
+        "design_ref": "DESIGN.md section 4 (C03)",
+        "technique": "Verus on let-regions of read_http_request (repeated Content-Length / Transfer-Encoding rejected, from the proved HeaderList "
+                     "lookups), on read_request's state derivation and the body readers; complete Kani harness on the body-classification "
+                     "statement; bounded stand-in c03 for the value parsing clauses",
+        "level_text": "Deductive: the statements of read_http_request that look up Content-Length and Transfer-Encoding return an error whenever "
+                      "two or more fields match (any list, any case mix); read_request sets the body read state from the classification; a "
+                      "known-length body read consumes at most / returns exactly len bytes (C09 unit). Bit-precise (Kani, complete): the "
+                      "classification statement maps every (chunked, gzip, expect, Option<u64> length, method) to the RFC 7230 3.3.3 class. "
+                      "Bounded (never counted as proved): value parsing of Content-Length / Transfer-Encoding, two-message pipelining, via the "
+                      "real read_http_request over the header cross product.",
+        "level_note": "The Content-Length / Transfer-Encoding *value* parsing (str::parse, split/trim/filter chains), ContentType::parse, cookies "
+                      "and Expect are outside both verifiers' reach and are only exercised by the bounded stand-in; the regions are statements "
+                      "copied verbatim into wrapper functions (the wrapper signature is the only added text).",
+        "verus": ["framing", "conn", "body"],
+        "verus_thorough": [],
+        "kani": ["c03"],
+        "witness": "c03",
+        "assumptions": [
+            "as C14 for the HeaderList lookups (str::eq_ignore_ascii_case uninterpreted, AsRef)",
+            "the let-regions are identified by the header-name literal they contain; a restructured read_http_request gives UNDECIDED and the bounded stand-in decides",
+            "Kani harness: method drawn from a 10-string pool bracketing POST / PUT (prefixes, extensions, lower case)",
+        ],
+        "not_covered": [
+            "Content-Length / Transfer-Encoding value parsing, ContentType::parse, Expect and cookie extraction (bounded stand-in only)",
+            "that the handler-visible header list is the sent list minus the consumed fields (C14 covers the removal operations)",
+        ],
+    },
 }
 
 NOT_APPLICABLE = {}
